@@ -10,9 +10,8 @@ if bitarray.__version__.startswith("2."):
 def indices(s: slice, length: int) -> tuple[int, int | None, int]:
     """A better implementation of slice.indices such that a
     slice made from [start:stop:step] will actually equal the original slice."""
-    if s.step is None or s.step > 0:
-        return s.indices(length)
-    assert s.step < 0
+    if s.step is None or s.step >= 0:
+        return s.indices(length)  # (which raises ValueError for a step of zero)
     start, stop, step = s.indices(length)
     if stop < 0:
         stop = None
